@@ -573,9 +573,50 @@ func (g *apuGenSt) measureWave(f int) {
 	g.p.c.class(fmt.Sprintf("period/ch3/f%03x/%s", f, o))
 }
 
-func (g *apuGenSt) measureNoise(nr43 int, k int) {
+// a low-byte-only frequency write (no NRx4 write after it) while the OTHER channels are programmed with different
+// high bits: the documented period uses the channel's own high bits
+func (g *apuGenSt) measureLowOnly(ch, f, low int) {
+	rng := g.p.c.rng
 	g.reset(0)
-	g.w(0xff21, 0xf0)
+	regs := [][3]int{{0xff12, 0xff13, 0xff14}, {0xff17, 0xff18, 0xff19}, {0xff1a, 0xff1d, 0xff1e}}
+	for o := 0; o < 3; o++ {
+		fo := f ^ (0x100 << uint(rng.intn(3))) ^ rng.intn(256)
+		if o == ch-1 {
+			fo = f
+		}
+		v := 0xf0
+		if o == 2 {
+			v = 0x80
+		}
+		g.w(regs[o][0], v)
+		g.w(regs[o][1], fo&0xff)
+		g.w(regs[o][2], 0x80|fo>>8)
+	}
+	g.c(rng.intn(50))
+	g.w(regs[ch-1][1], low)
+	f2 := f&0x700 | low
+	mult := 4
+	if ch == 3 {
+		mult = 2
+	}
+	g.p.expectP = mult * (2048 - f2)
+	k := 9
+	if f2 < 1024 {
+		k = 3
+	}
+	// the step in progress when the low byte was written still has the old length: skip it
+	g.p.do(fmt.Sprintf("m %d 1 %d", ch, 2*(2048-f)+2*(2048-f2)+16))
+	o := g.p.do(fmt.Sprintf("m %d %d %d", ch, k, (k+2)*(2048-f2)*mult/4+16))
+	g.p.c.class(fmt.Sprintf("period-lowonly/ch%d/f%03x/%02x/%s", ch, f, low, o))
+}
+
+func (g *apuGenSt) measureNoise(nr43 int, k int) { g.measureNoiseVol(nr43, k, 0xf0) }
+
+// nr42 with the DAC on and volume 0 (08, 09) or a fast fade-out (f1 would need a second): the generator is clocked
+// whatever the envelope volume is
+func (g *apuGenSt) measureNoiseVol(nr43 int, k int, nr42 int) {
+	g.reset(0)
+	g.w(0xff21, nr42)
 	g.w(0xff22, nr43)
 	g.w(0xff23, 0x80)
 	g.c(g.p.c.rng.intn(7))
@@ -586,7 +627,7 @@ func (g *apuGenSt) measureNoise(nr43 int, k int) {
 	P := d << uint(nr43>>4)
 	g.p.expectP = P
 	o := g.p.do(fmt.Sprintf("m 4 %d %d", k, (k+2)*P/4+16))
-	g.p.c.class(fmt.Sprintf("period/ch4/%02x/%s", nr43, o))
+	g.p.c.class(fmt.Sprintf("period/ch4/%02x/%02x/%s", nr43, nr42, o))
 }
 
 // LFSR output-bit period on the real code: run the noise channel at its fastest rate and record
@@ -766,6 +807,53 @@ func apuGen(c *ctx) {
 		c.notes["pacing_samples"] = emitted
 		c.notes["pacing_expected"] = total * 4 / 95 // ticks start at 1: samples at ticks 95, 190, ...
 		c.class(fmt.Sprintf("pacing/%d/%d", total, emitted))
+		// mixer sweep: every NR51 routing x several NR50 levels with all four channels audible at different levels
+		// (each channel alone first, so that a sample identifies which channel reached which side)
+		for _, chans := range []int{1, 2, 4, 8, 15} {
+			g.reset(3)
+			g.w(0xff24, 0x77)
+			g.w(0xff25, 0xff)
+			if chans&1 != 0 {
+				g.w(0xff11, 0x80)
+				g.w(0xff12, 0xf0)
+				g.w(0xff13, 0x00)
+				g.w(0xff14, 0x87)
+			}
+			if chans&2 != 0 {
+				g.w(0xff16, 0x40)
+				g.w(0xff17, 0xb0)
+				g.w(0xff18, 0x80)
+				g.w(0xff19, 0x86)
+			}
+			if chans&4 != 0 {
+				g.w(0xff30, 0xf0)
+				g.w(0xff31, 0x5a)
+				g.w(0xff1a, 0x80)
+				g.w(0xff1c, 0x20)
+				g.w(0xff1d, 0x00)
+				g.w(0xff1e, 0x85)
+			}
+			if chans&8 != 0 {
+				g.w(0xff21, 0x70)
+				g.w(0xff22, 0x21)
+				g.w(0xff23, 0x80)
+			}
+			nr50s := []int{0x77, 0x33, 0x70, 0x07, 0x52, 0xff, 0x88}
+			if !c.thorough() {
+				nr50s = []int{0x77, 0x33, 0x52, 0xf7}
+			}
+			for _, nr50 := range nr50s {
+				g.w(0xff24, nr50)
+				for nr51 := 0; nr51 < 256; nr51++ {
+					if chans != 15 && nr51&(chans|chans<<4) == 0 && nr51 != 0 {
+						continue
+					}
+					g.w(0xff25, nr51)
+					g.c(97 + c.rng.intn(60))
+				}
+			}
+			c.class(fmt.Sprintf("mixer-sweep/%x", chans))
+		}
 		// off / detached: no samples
 		for _, att := range []int{0, 1, 2, 3} {
 			g.reset(att)
@@ -829,6 +917,16 @@ func apuGen(c *ctx) {
 				k = 3
 			}
 			g.measureNoise(v, k)
+		}
+		for i, f := range fs {
+			if i%2 == 0 || c.thorough() {
+				g.measureLowOnly(1+i%3, f, c.rng.intn(256))
+			}
+		}
+		for i, v := range nr43s {
+			if v>>4 < 8 {
+				g.measureNoiseVol(v, 3, []int{0x08, 0x09, 0x0f, 0x18}[i%4])
+			}
 		}
 		c.notes["frequencies_measured"] = len(fs)
 		c.notes["nr43_measured"] = len(nr43s)
